@@ -27,6 +27,8 @@ class Isa:
         self.k_csa = facts.body("cpu::Cpu::calc_state_with_addr")["key"]
         mes = facts.find("trapa_emulate_mes2")
         self.k_mes = mes[0] if len(mes) == 1 else None
+        # calling contexts of the cost function met by the analysis: (calling body, callee line) -> [contexts, contexts whose count can exceed the u8 budget, witness count]
+        self.cost_sites = {}
 
     # ------------------------------------------------------------ symbolic cpu
     def fresh_cpu(self, pc24=True):
@@ -96,12 +98,24 @@ class Isa:
                 val = Int(bv.data_bv("opaque_val%d" % st.count("opq"), 8))
         return self._fail_fork(ip, st, lambda: Enum(models.OK, [UNIT]), ("memwrite", addr.bits, val.bits), ("memwrite_fail", addr.bits), "buserr")
 
-    def _cost(self, ip, st, kind, n, addr):
+    def _cost(self, ip, st, kind, n, addr, fr=None, t=None):
         if not isinstance(kind, Enum):
             raise InterpError("cost kind not concrete")
         kn = self.kind_names[kind.variant]
         if not isinstance(n, Int):
             raise InterpError("cost count opaque")
+        if fr is not None and t is not None:
+            # the cost function multiplies count x per-cycle cost in u8: whatever the count is (constant, helper parameter, selected by a
+            # decode bit), on this path it must keep count x MAX_COST_MULT within 8 bits (kind N is charged 1 per cycle)
+            site = self.cost_sites.setdefault("%s|%s|%s" % (fr.body["key"], t.get("ln"), (t["callee"]["path"] or "").split("::")[-1]), [0, 0, None, kn])
+            site[0] += 1
+            lim = 255 if kn == "N" else 255 // MAX_COST_MULT
+            over = bv.M.AND(st.pc, bv.M.NOT(bv.ule(n.bits, bv.const(lim, len(n.bits)))))
+            if over != 0:
+                site[1] += 1
+                if site[2] is None:
+                    a = bv.M.sat_one(over) or {}
+                    site[2] = sum((1 << i) for i, b in enumerate(n.bits) if bv.M.eval(b, a))
         if kn == "N":
             st.add_eff(("cost", kn, n.bits, addr, n.bits))
             return Enum(models.OK, [Int(n.bits)])
@@ -126,7 +140,7 @@ class Isa:
         return [(bv.M.AND(okv, bound), Enum(models.OK, [Int(res)]), on_ok), (bv.M.AND(bv.M.NOT(okv), bound), Enum(models.ERR, [Opaque("costerr")]), on_fail)]
 
     def p_calc_state(self, ip, st, fr, t, args):
-        return self._cost(ip, st, args[1], args[2], None)
+        return self._cost(ip, st, args[1], args[2], None, fr, t)
 
     def p_calc_state_with_addr(self, ip, st, fr, t, args):
         a = args[3]
@@ -134,7 +148,7 @@ class Isa:
             st.tag("unknown-callee")
             ip.unknown_callees["<opaque cost address: %r>" % (a,)] = 1
             a = Int(bv.data_bv("opaque_addr%d" % st.count("opq"), 32))
-        return self._cost(ip, st, args[1], args[2], a.bits)
+        return self._cost(ip, st, args[1], args[2], a.bits, fr, t)
 
     def p_mes(self, ip, st, fr, t, args):
         st.add_eff(("mes",))
